@@ -262,6 +262,12 @@ func (e *env) doSetEACL(cid []byte, alphaClass int) {
 	if b.Rng.IntN(3) == 0 {
 		tok = []byte{1, 2, 3}
 	}
+	if c != nil && c.eacl != nil && b.Rng.IntN(4) == 0 {
+		// the stored record once more, byte for byte: a successful call like any other, with its notification
+		// (seeded change C04-8: "nothing to rewrite" returning before the notification)
+		blob, sig, pub, tok = c.eacl.blob, c.eacl.sig, c.eacl.pub, c.eacl.token
+		b.Hit("setEACL-repeats-the-stored-record")
+	}
 	r := e.w.Invoke(s, e.cn, "setEACL", blob, sig, pub, tok)
 	b.Tx(1)
 	rs := []*world.TxResult{r}
